@@ -996,11 +996,18 @@ def settle(out: Out) -> None:
     """Send the collected requests through the Lean driver and compare (the tie)."""
     if not out.requests:
         return
-    try:
-        answers = leanio.Driver().ask(out.requests)
-    except leanio.LeanError as e:
-        out.fail("tie", f"Lean driver failed: {e}", {"log": e.log[-2000:]})
-        return
+    answers = None
+    for attempt in (0, 1):
+        try:
+            answers = leanio.Driver().ask(out.requests)
+            break
+        except leanio.LeanError as e:
+            # the driver did not run at all (e.g. a concurrently edited Drv/All.lean whose new import is not
+            # built yet): rebuild once, then give up as a harness error — never a verdict about the property.
+            if attempt == 0:
+                leanio.lake_build(["Kopf.Drv.All"])
+                continue
+            raise RuntimeError(f"Lean driver unavailable: {e}: {e.log[-500:]}")
     for (what, impl, replay), ans in zip(out.expect, answers):
         out.cmp += 1
         if ans and ans[0] == "ok" and what.startswith(("diffs.", )):
